@@ -355,8 +355,19 @@ class Gen:
                 f.min_inclusive = lo
             elif k < 0.8 and hi + 1 <= 2**31 - 1:
                 f.max_exclusive = hi + 1
+            import random as _random
+            side = _random.Random("int-enumeration:" + nm.xml)
+            if side.random() < self.cfg.get("p_int_enumeration", 0.2) and hi - lo >= 0:
+                # an enumerated integer type (status codes): a run of consecutive numbers, every one listed, in canonical form
+                # (simple types carry their text: members written as 007 or +7 would be compared as text, and whether that is
+                # right depends on a base type the carrier does not know — C06 tries those forms on the integer carriers)
+                a = lo
+                b = min(hi, lo + side.randrange(0, 4))
+                f.min_inclusive = f.max_inclusive = f.min_exclusive = f.max_exclusive = None
+                f.enumeration = [str(x) for x in range(a, b + 1)]
+                self.features.add("enumerated-integer-type")
             if st.base.builtin and ub in ("long", "unsignedInt", "unsignedLong", "integer", "nonNegativeInteger", "positiveInteger") \
-                    and r.random() < self.cfg.get("wide_facets", 0.0):
+                    and f.enumeration is None and r.random() < self.cfg.get("wide_facets", 0.0):
                 # bounds that are legal for the base type but do not fit an i32 (compile-only profiles: the emitted restriction
                 # record holds i32 bounds, what zeep does with a wider one is its business as long as the file compiles)
                 f.min_inclusive = f.min_exclusive = f.max_exclusive = None
@@ -839,7 +850,7 @@ class Gen:
             r3 = _random.Random("op-name:" + op_name.xml + str(len(w.operations)))
             if r3.random() < self.cfg.get("p_prelude_op_name", 0.12):
                 # operations named like prelude / reserved type names (Default, Option, ...): envelope and method names derive from it
-                word = r3.choice(["default", "option", "string", "vec", "rc", "result", "box", "self", ("c", "to", "f"), ("e", "mail"),
+                word = r3.choice(["default", "option", "string", "vec", "rc", "result", "box", "self", "new", "new", ("c", "to", "f"), ("e", "mail"),
                                   ("x", "coordinate"), ("get", "a", "b"), Name(("http", "ping"), "pascal", "HTTPPing"),
                                   Name(("xml", "export"), "pascal", "XMLExport")])
                 if isinstance(word, Name):
@@ -997,6 +1008,10 @@ def int_window(st):
             hi = min(hi, f.max_inclusive)
         if f.max_exclusive is not None:
             hi = min(hi, f.max_exclusive - 1)
+        if f.enumeration is not None and st.ultimate_builtin() in INT_BUILTINS:
+            # integer types are enumerated as a run of consecutive numbers (every one of them listed): as good as two bounds
+            members = [int(e) for e in f.enumeration]
+            lo, hi = max(lo, min(members)), min(hi, max(members))
     return lo, hi
 
 
